@@ -36,7 +36,7 @@ static void setup(Runner &r, const Tier &t) {
     r.ncases = g_cases.size(); r.case_alarm_s = unsigned(r.deadline_s) + 600;
     r.shard_init = [](int) { g_fc = new FaceCache; };
     r.describe = [](uint64_t i) { const JCase &c = g_cases[i]; JObj o; o.kv("api", "gr_slot_linebreak_before + gr_seg_justify").kv("font", g_fonts[c.font]).kv("text_utf8_hex", hex(g_texts[c.font][c.text].data(), g_texts[c.font][c.text].size()))
-        .kv("dir", c.dir).kv("with_font", c.wf).kv("histories", "every subset of cluster-boundary breaks x every line x 6 widths x 4 flags x 4 sub-ranges, applied in sequence"); return o; };
+        .kv("dir", c.dir).kv("with_font", c.wf).kv("histories", "every subset of cluster-boundary breaks x every line x 6 widths x 4 flags x 8 sub-ranges, applied in sequence"); return o; };
     r.body = [](uint64_t ci, ShardCtl &ctl) {
         const JCase &c = g_cases[ci]; gr_face *face = g_fc->get(g_fonts[c.font], gr_face_preloadAll); if (!face) return;
         const gr_faceinfo *fi = gr_face_info(face, 0); bool justifies = fi && fi->justifies; bool line_ends = fi && fi->line_ends;
@@ -75,9 +75,9 @@ static void setup(Runner &r, const Tier &t) {
             std::string why; int step = 0;
             if (!intact(why)) { JObj o; o.kv("api", "gr_slot_linebreak_before").kv("font", g_fonts[c.font]).kv("dir", c.dir).kv("with_font", c.wf).kv("mask", mask).kv("lines", (unsigned long long)lines.size()).kv("kind", "stream_corrupted").kv("why", why); report_fail(ci, o); failed = true; }
             const float widths[6] = { -1.f, 0.f, W / 4, W, 3 * W, 1e6f };
-            for (size_t L = 0; L < lines.size() && !failed; ++L) for (int wi = 0; wi < 6 && !failed; ++wi) for (int fl = 0; fl < 4 && !failed; ++fl) for (int sr = 0; sr < 4 && !failed; ++sr) {
+            for (size_t L = 0; L < lines.size() && !failed; ++L) for (int wi = 0; wi < 6 && !failed; ++wi) for (int fl = 0; fl < 4 && !failed; ++fl) for (int sr = 0; sr < 8 && !failed; ++sr) {
                 const auto &V = lines[L]; const gr_slot *pf = nullptr, *pl = nullptr;
-                if (sr == 1) { pf = V.front(); pl = V.back(); } else if (sr == 2) { if (V.size() < 3) continue; pf = V[1]; pl = V[V.size() - 2]; } else if (sr == 3) { pf = V.back(); pl = V.back(); }
+                if (sr == 1) { pf = V.front(); pl = V.back(); } else if (sr == 2) { if (V.size() < 3) continue; pf = V[1]; pl = V[V.size() - 2]; } else if (sr == 3) { pf = V.back(); pl = V.back(); } else if (sr == 4) { pf = V.front(); } else if (sr == 5) { pl = V.back(); } else if (sr == 6) { pf = V.front(); pl = V.front(); } else if (sr == 7) { if (V.size() < 2) continue; pf = V[1]; }
                 float ret = gr_seg_justify(seg, V[0], font, widths[wi], gr_justFlags(fl), pf, pl); ++calls; ++step;
                 if (!std::isfinite(ret)) why = "returned width not finite";
                 if (!why.empty() || !intact(why)) {
